@@ -13,6 +13,12 @@ for line in out.splitlines():
     if m:
         res.setdefault(m.group(1), {'status': 'DETECTED', 'findings': []})['findings'].append(m.group(2))
 why_missed = {
+ 'C02-Ar3': 'emitted-Python layout: only the first line of a multi-line loop body is indented (a blank prefix instead of the per-line indent helper); indentation of emitted text is a property of the emitted program, a may-analysis of which strings are multi-line would have to be path-sensitive per field kind to stay silent on correct code',
+ 'C02-Br3': 'kind coverage of a text/number decision for match keys in the Rust emitter (char[n] keys treated as numbers): every structural relation of the wire matrix is intact; the emitted Rust fails to type-check',
+ 'C04-Ar3': 'value-level: the emitted Go arithmetic measures from the length slot instead of from the start of the target (same family as C04-A / C04-Ar2)',
+ 'C05-Br3': 'emitted-Go control flow: the decoder instantiates the payload only when the member is nil (helper shared with the encoder); the dispatch table and every dependence are intact',
+ 'C10-Ar3': 'value-level arithmetic in formatStringList (>= instead of > on exact multiples), same family as C09-A',
+ 'C17-Br3': 'emitted-C++ typing: a by-value member is assigned a unique_ptr because a flag leaks into the recursion; needs a C++ front end',
  'C03-B': 'value-level: the emitted Java counts UTF-16 chars instead of UTF-8 bytes; every dependence the matrix demands is still present (the generator still consumes prefix type and byte order)',
  'C04-A': 'value-level: the emitted Python arithmetic subtracts the wrong marker; dependences on byte order and length-field type are intact',
  'C05-A': 'value-level: a different column of the same C++ table row (promoted int instead of exact-width type) is emitted as the factory key type',
